@@ -74,10 +74,12 @@ def run_two_models(case):
     out = []
     s = fam.two_model_structure(case)
     m2 = dict(case["m2"], idmode=case["m1"].get("idmode", 0))
-    judges = {1: ac.PairJudge(refann.from_structure3d(fam.structure_of(case["m1"]))), 2: ac.PairJudge(refann.from_structure3d(fam.structure_of(m2)))}
+    mn0 = tuple(case.get("model_numbers", (1, 2)))
+    judges = {mn0[0]: ac.PairJudge(refann.from_structure3d(fam.structure_of(case["m1"]))), mn0[1]: ac.PairJudge(refann.from_structure3d(fam.structure_of(m2)))}
     tot = [0, 0, 0]
     seen = []
-    for step, m in enumerate((1, 2, 1)):
+    mn = tuple(case.get("model_numbers", (1, 2)))
+    for step, m in enumerate((mn[0], mn[1], mn[0])):
         seams.PAIR_ORDER.fn = None
         r = observe(find_pairs, s, m)
         if r[0] == "exc":
